@@ -161,7 +161,7 @@ class PrintUsingFormatter:
                 return ('-' if negative else '') + digits
 
         result = with_sign(digits)
-        if len(result) > width and digits.startswith('0.'):
+        if len(result) > width and digits.startswith('0.') and decimals > 0:
             # the leading zero is dropped when there is no room for it
             result = with_sign(digits[1:])
 
